@@ -105,7 +105,12 @@ pub fn finalize_body<'gc>(w: &mut World, a: Aid, fc: &'gc Finalization<'gc>, roo
     body(w, a, mc, Some(fc), RootRef::Shared(root), p, false, src)
 }
 
-fn new_root_body<'gc>(w: &mut World, a: Aid, mc: &'gc Mutation<'gc>, root_set: Id) -> RootBody<'gc> {
+fn new_root_body<'gc>(w: &mut World, a: Aid, mc: &'gc Mutation<'gc>, root_set: Id, bare: bool) -> RootBody<'gc> {
+    if bare {
+        // ids root_set and root_set + 1 stay unused: nothing refers to them
+        w.sh.next_id = w.sh.next_id.max(root_set + 2);
+        return RootBody { slots: vec![None; ROOT_STRONG], fp: FaultPoint(ROOT_SITE + a as u32), weak: vec![None; ROOT_WEAK], set: None, zst: None };
+    }
     let since = seam::mark();
     let set = {
         let _t = seam::track();
@@ -145,7 +150,7 @@ fn new_root_body<'gc>(w: &mut World, a: Aid, mc: &'gc Mutation<'gc>, root_set: I
     w.sh.arena_mut(a).root_zst = Some(root_set + 1);
     w.rt[a as usize].allocs += 1;
     w.sh.next_id = w.sh.next_id.max(root_set + 2);
-    RootBody { slots: vec![None; ROOT_STRONG], fp: FaultPoint(ROOT_SITE + a as u32), weak: vec![None; ROOT_WEAK], set, zst }
+    RootBody { slots: vec![None; ROOT_STRONG], fp: FaultPoint(ROOT_SITE + a as u32), weak: vec![None; ROOT_WEAK], set: Some(set), zst: Some(zst) }
 }
 
 impl World {
@@ -200,7 +205,7 @@ impl World {
         self.sh.arena_mut(a).resurrected.clear();
     }
 
-    pub fn ev_new_arena(&mut self, a: Aid, root_set: Id, ops: &mut Vec<Op>, p: PacingSpec, fail: CtorFail, g: GenRef<'_>) {
+    pub fn ev_new_arena(&mut self, a: Aid, root_set: Id, ops: &mut Vec<Op>, p: PacingSpec, fail: CtorFail, bare: bool, g: GenRef<'_>) {
         let ai = a as usize;
         if self.arenas.len() > ai && (self.arenas[ai].is_some() || self.sh.arenas[ai].is_some()) {
             return;
@@ -234,13 +239,13 @@ impl World {
                 match fail {
                     CtorFail::No => Ok(ArenaA::new(|mc| {
                         let _p = seam::pause();
-                        let mut rb = new_root_body(me, a, mc, root_set);
+                        let mut rb = new_root_body(me, a, mc, root_set, bare);
                         owned_body(me, a, mc, &mut rb, Phase::Sleeping, true, &mut src, false);
                         RootA { body: rb }
                     })),
                     CtorFail::TryNewOk | CtorFail::TryNewErr => ArenaA::try_new(|mc| {
                         let _p = seam::pause();
-                        let mut rb = new_root_body(me, a, mc, root_set);
+                        let mut rb = new_root_body(me, a, mc, root_set, bare);
                         // on Err, from the return on the arena is being torn down
                         let failing = fail == CtorFail::TryNewErr;
                         owned_body(me, a, mc, &mut rb, Phase::Sleeping, true, &mut src, failing);
